@@ -145,10 +145,10 @@ class Witness(object):
         self.records = []       # (set id, elements in iteration order)
         self.undo = []
 
-    def rec(self, sid, order):
+    def rec(self, sid, order, recipe):
         order = [str(x) for x in order]
         if len(order) >= 2:
-            self.records.append([sid, order])
+            self.records.append([sid, order, recipe])
 
     def install(self):
         import experiment.model.conf as conf
@@ -173,11 +173,13 @@ class Witness(object):
                 return None
 
         def init(*a, **kw):
-            me.rec('conf.variable_files', list(set(given_files(sig_init, a, kw) or [])))
+            files = list(given_files(sig_init, a, kw) or [])
+            me.rec('conf.variable_files', list(set(files)), {'op': 'set', 'a': files})
             return orig_init(*a, **kw)
 
         def parametrize(*a, **kw):
-            me.rec('conf.variable_files', list(set(given_files(sig_param, a, kw) or [])))
+            files = list(given_files(sig_param, a, kw) or [])
+            me.rec('conf.variable_files', list(set(files)), {'op': 'set', 'a': files})
             return orig_param(*a, **kw)
 
         C.__init__ = init
@@ -190,7 +192,9 @@ class Witness(object):
 
         def parse_component(cls, options, *a, **kw):
             try:
-                me.rec('dosini.component_options', list(set(options.keys()).intersection(cls.known_flowir_options())))
+                known = cls.known_flowir_options()
+                me.rec('dosini.component_options', list(set(options.keys()).intersection(known)),
+                       {'op': 'intersection', 'a': list(options.keys()), 'b': sorted(known)})
             except Exception:
                 pass
             return orig_pc(cls, options, *a, **kw)
@@ -206,28 +210,22 @@ class Witness(object):
             try:
                 import re
                 pattern_output = re.compile(dsl.OutputReferenceVanilla)
-                pattern_legacy = re.compile(dsl.LegacyReferencePattern)
                 args = self_.flowir['command'].get('arguments', '')
                 arguments_output, parameters_output = set(), set()
-                arguments_legacy, parameters_legacy = set(), set()
+                seq_a, seq_p = [], []
                 if isinstance(args, str):
                     for m in pattern_output.finditer(args):
                         if dsl.OutputReference.from_str(m.group(0)).method:
                             arguments_output.add(m.group(0))
+                            seq_a.append(m.group(0))
                 for name, value in self_.scope.parameters.items():
                     if isinstance(value, str):
                         for m in pattern_output.finditer(value):
                             if dsl.OutputReference.from_str(m.group(0)).method:
                                 parameters_output.add(m.group(0))
-                if isinstance(args, str):
-                    for m in pattern_legacy.finditer(args):
-                        arguments_legacy.add(m.group(0))
-                for name, value in self_.scope.parameters.items():
-                    if isinstance(value, str):
-                        for m in pattern_legacy.finditer(value):
-                            parameters_legacy.add(m.group(0))
-                me.rec('dsl.output_references', list(parameters_output.union(arguments_output)))
-                me.rec('dsl.legacy_references', list(parameters_legacy.union(arguments_legacy)))
+                                seq_p.append(m.group(0))
+                me.rec('dsl.output_references', list(parameters_output.union(arguments_output)),
+                       {'op': 'union', 'a': seq_p, 'b': seq_a})
             except Exception:
                 pass
             return orig_conv(self_, *a, **kw)
@@ -376,7 +374,7 @@ def load(task, scratch, listing, witness):
         private = os.path.join(inst_root, 'pkg', os.path.basename(pkg_path))
         shutil.copytree(pkg_path, private, symlinks=True)
     listing.k = task.get('listing')
-    listing.only_under = [scratch, os.path.dirname(pkg_path)]
+    listing.only_under = [scratch, task.get('corpus_root') or os.path.dirname(pkg_path)]
     mark = len(witness.records)
     out = {}
     try:
@@ -422,14 +420,18 @@ def load(task, scratch, listing, witness):
     repl = sorted({(inst_root, '<INSTROOT>'), (scratch, '<SCRATCH>'), (private, '<PKG>'), (pkg_path, '<PKG>')},
                   key=lambda ab: -len(ab[0]))
     out = normalise(out, repl)
-    wit = [[sid, order] for sid, order in witness.records[mark:]]
-    if mode != 'exp' or True:
-        try:
-            # set(backends): the order active_backends() returns IS the iteration order of the set
-            if out.get('loaded'):
-                wit.append(['graph.active_backends', list(g.active_backends())])
-        except Exception:
-            pass
+    wit = [list(r) for r in witness.records[mark:]]
+    try:
+        # set(backends): the order active_backends() returns IS the iteration order of the set
+        if out.get('loaded'):
+            order = list(g.active_backends())
+            given = [d['componentSpecification'].resourceManager['config']['backend']
+                     for _, d in g.graph.nodes(data=True)]
+            if len(order) >= 2:
+                # (the node order of the graph is not part of the recipe: it only decides collisions inside the set)
+                wit.append(['graph.active_backends', order, {'op': 'set', 'a': sorted(set(x for x in given if x is not None))}])
+    except Exception:
+        pass
     return out, wit
 
 
